@@ -23,6 +23,8 @@ pub struct RustDocument {
     pub(crate) soap_ports: Vec<Rc<SoapPort>>,
     pub(crate) soap_bindings: Vec<Rc<SoapBinding>>,
     pub(crate) soap_services: Vec<SoapService>,
+    /// names that are being resolved through a search of the XML tree (guards against cyclic definitions)
+    pub(crate) resolving: Vec<String>,
 }
 
 impl RustDocument {
@@ -57,6 +59,7 @@ impl RustDocument {
             soap_ports: Vec::new(),
             soap_bindings: Vec::new(),
             soap_services: Vec::new(),
+            resolving: Vec::new(),
         }
     }
 
@@ -199,8 +202,15 @@ fn try_to_find_node_by_xml_name_in_xml_doc<'n>(
                     continue;
                 }
 
-                let rust_node = RustNode::try_from_node(node, doc)?;
-                return Ok(rust_node);
+                // a definition that refers to itself (directly or through others) can not be resolved by value
+                if doc.resolving.iter().any(|name| name == xml_name) {
+                    return Err(WriterError::InvalidReference);
+                }
+
+                doc.resolving.push(xml_name.to_string());
+                let rust_node = RustNode::try_from_node(node, doc);
+                doc.resolving.pop();
+                return rust_node;
             }
         }
     }
